@@ -11,6 +11,7 @@ from ..report import RuleResult
 from ._c10_util import (
     FALSY,
     TOPLEVEL,
+    TRUTHY,
     Paths,
     bind_args,
     callee_of,
@@ -576,11 +577,30 @@ def rule_open(ctx) -> RuleResult:
             if kind == "Workspace(" and mode is None:
                 # constructing a workspace with the default mode on behalf of a reader
                 ok = not any(x is not TOPLEVEL and x.name == "path2workspace" for x in entry_roots(ctx, fn))
+            if kind in (".open(", "Workspace(") and mode is None and ok and _was_given_a_mode(ctx, fn):
+                # the caller asked for a mode (parameter mode=): opening with the workspace's own default loses the request
+                ok = False
+                txt = "<default although a mode was requested>"
             res.inst(f"{fn.qualname}:{n.lineno} {kind} mode={txt}", ok=ok)
             if not ok:
                 res.find(fn.cls.name if fn.cls else fn.module.short, fn.prop or fn.name, f"{kind} mode={txt}",
                          f"{fn.module.relpath}:{n.lineno}", "a reading helper opens the user's file with a mode other than 'r'")
     return res
+
+
+def _was_given_a_mode(ctx, fn) -> bool:
+    """`fn` (or, for a private helper, every function through which it is entered) takes a parameter mode=."""
+
+    def has_mode(f):
+        a = f.node.args
+        return "mode" in [x.arg for x in a.posonlyargs + a.args + a.kwonlyargs]
+
+    if has_mode(fn):
+        return True
+    if not is_private_helper(fn):
+        return False
+    roots = entry_roots(ctx, fn, stop=has_mode)
+    return bool(roots) and all(r is not TOPLEVEL and has_mode(r) for r in roots)
 
 
 def _is_builtin_open(call) -> bool:
@@ -829,10 +849,154 @@ def rule_repack(ctx) -> RuleResult:
     return res
 
 
+def _is_gateway_write(ctx, fn, call) -> bool:
+    """`call` is self._io_call(H5Writer.<member>, ..., mode='r+'|'a') (or a thin wrapper around it): refused on a read-only handle."""
+    if not (isinstance(call, ast.Call) and call.args and isinstance(call.args[0], ast.Attribute)):
+        return False
+    r = ctx.p.resolve_expr(fn.module, call.args[0].value) if chain(call.args[0].value) else None
+    if not (r and r[0] == "class" and r[1] is _writer_class(ctx)):
+        return False
+    if _gateway_call(fn, call):
+        mode, dyn = _mode_of(ctx, fn, call)
+        return not dyn and mode in ("r+", "a")
+    fw = _forwarder_modes(ctx, fn, call)
+    return bool(fw) and all(m in ("r+", "a") for m in fw)
+
+
+def _refusing_nodes(ctx, fn, paths, _stack=()) -> set:
+    """ids of the CFG nodes of `fn` that cannot complete normally while the handle is read-only: gateway writes, and calls to
+    private helpers (left unexpanded by the normaliser) that cannot return normally themselves."""
+    p = ctx.p
+
+    def refuses(x):
+        if _is_gateway_write(ctx, fn, x):
+            return True
+        if isinstance(x, ast.Call) and len(_stack) < 4:
+            t = callee_of(p, fn, x)
+            if t is not None and t.cls is fn.cls and t.kind == "method" and all(t.node is not s for s in _stack) and t.node is not fn.node:
+                tv = ctx.view(t)
+                tp = Paths(tv, texts=_handle_mode_facts(tv), project=p)
+                return tp.g.exit not in tp.reachable(avoid=_refusing_nodes(ctx, tv, tp, _stack + (fn.node,)) or {-1})
+        return False
+
+    return {n.id for n, _hits in paths.nodes_with(refuses)}
+
+
+def rule_funnel(ctx) -> RuleResult:
+    res = RuleResult(
+        "C10.FUNNEL",
+        "C10",
+        "Workspace.update_attribute — the funnel of every attribute setter of every entity — cannot return normally for an "
+        "entity that is on file while the handle is read-only: each of its paths (file-backed or staged in memory by the "
+        "concatenator and flushed at close) passes a write through the guarded gateway",
+        floor=1,
+    )
+    p = ctx.p
+    raw = p.func("Workspace.update_attribute")
+    fn = ctx.view(raw)
+    params = raw.params[1:]
+    if not params:
+        raise AnalysisError("Workspace.update_attribute: the entity parameter was not found")
+    entity = params[0]
+    facts = dict(_handle_mode_facts(fn))
+    facts[f"{entity}.on_file"] = TRUTHY
+    paths = Paths(fn, texts=facts, project=p)
+    refusing = _refusing_nodes(ctx, fn, paths)
+    if not refusing:
+        raise AnalysisError("Workspace.update_attribute: no write through the gateway found")
+    reach = paths.reachable(avoid=refusing)
+    ok = paths.g.exit not in reach
+    res.inst(f"Workspace.update_attribute: {len(refusing)} gateway write(s); with a read-only handle no path of an on-file entity reaches the normal exit",
+             nontrivial=True, ok=ok)
+    if not ok:
+        # name the last statement of a path that gets through
+        through = [n for n in reach if n.kind in ("stmt", "return") and n.id not in refusing and any(m is paths.g.exit or m.kind == "return" for m, _ in n.succ)]
+        line = min([n.lineno for n in through if n.lineno] or [raw.node.lineno])
+        res.find("Workspace", "update_attribute", "a path returns normally on a read-only handle without passing the gateway",
+                 f"{raw.module.relpath}:{line}",
+                 "an attribute setter on an entity of a workspace opened 'r' is accepted silently (the edit stays in memory, "
+                 "e.g. staged by the concatenator, and is lost at close) instead of failing with an error")
+    return res
+
+
+def _handle_is_open_hook(fn):
+    """Facts for "the workspace is currently opened": isinstance(self._geoh5, <h5py.File>) holds."""
+    s = fn.self_name
+
+    def hook(e, paths):
+        if isinstance(e, ast.Call) and isinstance(e.func, ast.Name) and e.func.id == "isinstance" and len(e.args) == 2 and not e.keywords:
+            if paths.text(e.args[0]) == f"{s}._geoh5":
+                types = e.args[1].elts if isinstance(e.args[1], ast.Tuple) else [e.args[1]]
+                for t in types:
+                    ch = chain(t)
+                    r = paths.p.resolve_expr(fn.module, t) if ch else None
+                    if (r and r[0] == "external" and r[1] == "h5py.File") or (ch and ch[0] == "h5py" and ch[-1] == "File"):
+                        return True
+        return None
+
+    return hook
+
+
+def rule_reopen(ctx) -> RuleResult:
+    res = RuleResult(
+        "C10.REOPEN",
+        "C10",
+        "Workspace.open on a workspace that is already opened leaves the handle alone: while self._geoh5 is a live h5py.File no "
+        "path reaches h5py.File(...), a store to self._geoh5 or self.close() — whatever mode is asked (or defaulted), an opened "
+        "read-only handle is never swapped for a writable one",
+        floor=1,
+    )
+    p = ctx.p
+    raw = p.func("Workspace.open")
+    fn = ctx.view(raw)
+    s = fn.self_name
+    paths = Paths(fn, texts={f"{s}._geoh5": TRUTHY}, project=p, hook=_handle_is_open_hook(fn))
+    swaps_cache = {}
+
+    def own_swap(f, x):
+        if _is_h5py_file(p, f, x):
+            return "h5py.File("
+        if _self_attr(f, x, "_geoh5") and not isinstance(x.ctx, ast.Load):
+            return "stores self._geoh5"
+        if isinstance(x, ast.Call) and isinstance(x.func, ast.Attribute) and x.func.attr == "close" and isinstance(x.func.value, ast.Name) \
+                and x.func.value.id == f.self_name and f.self_name:
+            return "self.close()"
+        return None
+
+    def swap(x):
+        k = own_swap(fn, x)
+        if k:
+            return k
+        if isinstance(x, ast.Call):
+            t = callee_of(p, fn, x)
+            if t is not None and t.node is not raw.node:
+                key = id(t.node)
+                if key not in swaps_cache:
+                    swaps_cache[key] = next((k2 for h in helper_closure(p, t) if h.node is not raw.node for y in ast.walk(h.node)
+                                             for k2 in [own_swap(h, y)] if k2), None)
+                return swaps_cache[key]
+        return None
+
+    live = paths.g.reachable()
+    sites = [(n, x) for n, hits in paths.nodes_with(lambda x: swap(x) is not None) if n in live for x in hits]
+    if not sites:
+        raise AnalysisError("Workspace.open: the place where the handle is bound was not found")
+    reach = paths.reachable()
+    for n, x in sites:
+        kind = swap(x)
+        ok = n not in reach
+        res.inst(f"Workspace.open:{n.lineno} {kind} unreachable while the workspace is already opened", nontrivial=True, ok=ok)
+        if not ok:
+            res.find("Workspace", "open", f"{kind} reachable on an already opened workspace", f"{raw.module.relpath}:{n.lineno}",
+                     "open() on an opened workspace replaces (or closes) the live handle: a workspace opened read-only is silently "
+                     "re-opened in another mode (e.g. the constructor's default 'r+' when open() is called without argument)")
+    return res
+
+
 def rule_load(ctx) -> RuleResult:
     from .c19 import rule_load as _load
 
     return _load(ctx, "C10.LOAD", "C10")
 
 
-RULES = [rule_gate, rule_guard, rule_who, rule_open, rule_reader, rule_repack, rule_load]
+RULES = [rule_gate, rule_guard, rule_who, rule_open, rule_reopen, rule_funnel, rule_reader, rule_repack, rule_load]
